@@ -208,6 +208,32 @@ add('c18-eval-back', 'C18', 'break', [(OPERAND, """        name = self.name.uppe
             return int(name)
         except ValueError:
             return float(name)""", """        return eval(self.name.capitalize())""")], expect='C18')
+add('c08-self-rebind-dropped-final', 'C08', 'break', [(EXCEL, """            wildcard=False
+        )
+        _rebind_self(dsp)
+""", """            wildcard=False
+        )
+""")], expect='C08.self')
+add('c08-self-rebind-dropped-preeval', 'C08', 'break', [(EXCEL, """        _rebind_self(dsp)
+
+        res = dsp()""", """        res = dsp()""")], expect='C08.self')
+add('c08-self-rebind-after-preeval', 'C08', 'break', [(EXCEL, """        _rebind_self(dsp)
+
+        res = dsp()""", """        res = dsp()
+        _rebind_self(dsp)""")], expect='C08.self')
+add('c08-benign-self-rebind-inline', 'C08', 'benign', [(EXCEL, """            wildcard=False
+        )
+        _rebind_self(dsp)
+""", """            wildcard=False
+        )
+        if sh.SELF in dsp.default_values:
+            dsp.default_values[sh.SELF] = dict(
+                dsp.default_values[sh.SELF], value=dsp
+            )
+""")])
+add('c18-error-literal-case-reverted', 'C18', 'break', [(OPERAND, """        return self.errors[self.name.upper()]""", """        return self.errors[self.name]""")], expect='C18.esc')
+add('c18-benign-error-literal-casefold-local', 'C18', 'benign', [(OPERAND, """        return self.errors[self.name.upper()]""", """        name = self.name.upper()
+        return self.errors[name]""")])
 add('c18-builder-raises-valueerror', 'C18', 'break', [(BUILDER, """            except IndexError:
                 raise FormulaError()""", """            except IndexError:
                 raise ValueError()""")], expect='C18')
@@ -860,13 +886,19 @@ add('c08-inv-data-loop-dropped', 'C08', 'break', [(EXCEL, """        for i in in
 add('c08-defaults-filter-dropped', 'C08', 'break', [(EXCEL, """        dsp.default_values = {
             k: v for k, v in dsp.default_values.items() if k not in inp
         }
+        _rebind_self(dsp)
 
-        res = dsp()""", """        res = dsp()""")], expect='C08.unset')
+        res = dsp()""", """        _rebind_self(dsp)
+
+        res = dsp()""")], expect='C08.unset')
 add('c08-evaluate-before-filter', 'C08', 'break', [(EXCEL, """        dsp.default_values = {
             k: v for k, v in dsp.default_values.items() if k not in inp
         }
+        _rebind_self(dsp)
 
-        res = dsp()""", """        res = dsp()
+        res = dsp()""", """        _rebind_self(dsp)
+
+        res = dsp()
         dsp.default_values = {
             k: v for k, v in dsp.default_values.items() if k not in inp
         }""")], expect='C08.unset')
